@@ -1,0 +1,28 @@
+// Copyright (C) 2026 Storj Labs, Inc.
+// See LICENSE for copying information.
+
+//go:build verif
+
+package drpcdebug
+
+import "sync/atomic"
+
+var pointHook atomic.Pointer[func(name string)]
+
+// SetPointHook installs (or, with nil, removes) the callback invoked by Point.
+// It exists only under the verif build tag: external checkers use it to park
+// a goroutine at a named program point.
+func SetPointHook(f func(name string)) {
+	if f == nil {
+		pointHook.Store(nil)
+		return
+	}
+	pointHook.Store(&f)
+}
+
+// Point marks a named program point. It is a no-op unless a hook is installed.
+func Point(name string) {
+	if f := pointHook.Load(); f != nil {
+		(*f)(name)
+	}
+}
